@@ -44,6 +44,10 @@ PROPS = {
     "C19": {"builds": ["full"], "mc": [INDENT]},
     "C20": {"builds": BOTH, "mc": [COLUMNS]},
 }
+_KINDS = {"C05": ["wrap", "c05"], "C09": ["c09"], "C13": ["c13"], "C14": ["c14"], "C15": ["c15", "unfill"], "C16": ["c16"],
+          "C18": ["dedent", "c18"], "C19": ["indent"], "C06": ["frag"], "C07": ["frag", "wrap"], "C03": ["frag", "wrap"]}
+for _k, _v in _KINDS.items():
+    PROPS[_k]["replay_kinds"] = _v
 for _p in PROPS.values():
     _p.setdefault("dev", PINNED)
     _p.setdefault("mc", [])
